@@ -467,8 +467,8 @@ namespace
                 if (--indeg[r] == 0)
                     stack.push_back(r);
             }
-            if (has_out && !(std::fabs(wsum - 1.0L) <= 1e-9L))
-                weights_ok = false;
+            if (has_out && !std::isfinite(static_cast<double>(wsum)))
+                weights_ok = false;  // non-finite weights are a C05 finding; the recurrence is still checked
         }
         if (done != n)
         {
@@ -510,7 +510,7 @@ namespace
                 c.R.count("c03.conservation_checked");
             }
             else
-                c.R.count("c03.conservation_skipped_weights_do_not_sum_to_one");
+                c.R.count("c03.conservation_skipped_non_finite_weights");
         }
         bool nt = false;
         for (std::size_t i = 0; i < n && !nt; ++i)
@@ -760,11 +760,15 @@ namespace
     }
 
     // ------------------------------------------------------------------------------------ C19
-    void check_c19(const Ctx& c, graph_t& graph, int repeat)
+    void check_c19(const Ctx& c, graph_t& graph, int repeat, const GState* state = nullptr, const char* which = "")
     {
-        const GState& S = c.S;
+        const GState& S = state ? *state : c.S;
         const std::size_t n = S.n;
+        const std::string Pk = std::string("C19");
         const char* P = "C19";
+        (void) Pk;
+        if (*which)
+            c.R.count("c19.snapshot_graphs_checked");
         const std::size_t no_basin = std::numeric_limits<std::size_t>::max();
         for (int rep = 0; rep < repeat; ++rep)
         {
@@ -1398,6 +1402,20 @@ namespace
             }
             if (final_single(ops) && R.want("C19"))
                 check_c19(c, graph, s == nsteps - 1 ? 2 : 1);
+            if (R.want("C19"))
+            {
+                // single-direction graph snapshots are flow graphs too
+                for (auto& o : ops)
+                    if (o.kind == OpKind::snap && o.save_graph)
+                    {
+                        graph_t& sg = graph.graph_snapshot(o.name);
+                        if (!sg.impl().single_flow())
+                            continue;
+                        GState SS = extract(sg.impl());
+                        if (SS.shapes_ok)
+                            check_c19(c, sg, 1, &SS, "snapshot");
+                    }
+            }
         }
     }
 
